@@ -97,6 +97,16 @@ mod ethnum {
     impl core::ops::Div<I256> for I256 { type Output = I256; fn div(self, _r: I256) -> I256 { unimplemented!() } }
     impl core::ops::Rem<I256> for I256 { type Output = I256; fn rem(self, _r: I256) -> I256 { unimplemented!() } }
     impl core::ops::Neg for I256 { type Output = I256; fn neg(self) -> I256 { unimplemented!() } }
+    impl core::ops::AddAssign<U256> for U256 { fn add_assign(&mut self, _r: U256) { unimplemented!() } }
+    impl core::ops::SubAssign<U256> for U256 { fn sub_assign(&mut self, _r: U256) { unimplemented!() } }
+    impl core::ops::MulAssign<U256> for U256 { fn mul_assign(&mut self, _r: U256) { unimplemented!() } }
+    impl core::ops::ShlAssign<u32> for U256 { fn shl_assign(&mut self, _r: u32) { unimplemented!() } }
+    impl U256 {
+        pub fn into_words(self) -> (u128, u128) { unimplemented!() }
+        pub fn from_words(_hi: u128, _lo: u128) -> U256 { unimplemented!() }
+        pub fn high(&self) -> &u128 { unimplemented!() }
+        pub fn low(&self) -> &u128 { unimplemented!() }
+    }
     impl From<u16> for U256 { fn from(_v: u16) -> U256 { unimplemented!() } }
     impl From<u64> for U256 { fn from(_v: u64) -> U256 { unimplemented!() } }
     impl From<i128> for I256 { fn from(_v: i128) -> I256 { unimplemented!() } }
@@ -188,6 +198,35 @@ pub assume_specification[ U256::as_u64 ](a: U256) -> (r: u64)
     ensures r as nat == u(a) % 0x1_0000_0000_0000_0000;
 pub assume_specification[ U256::as_usize ](a: U256) -> (r: usize)
     ensures r as nat == u(a) % 0x1_0000_0000_0000_0000;   // 64-bit target
+// the plain operators panic on overflow in builds with overflow checks (this crate enables them in every profile)
+impl vstd::std_specs::ops::AddSpecImpl<U256> for U256 {
+    open spec fn obeys_add_spec() -> bool { true }
+    open spec fn add_req(self, rhs: U256) -> bool { u(self) + u(rhs) < M() }
+    open spec fn add_spec(self, rhs: U256) -> U256 { choose_u(u(self) + u(rhs)) }
+}
+pub assume_specification[ <U256 as core::ops::Add<U256>>::add ](a: U256, b: U256) -> (r: U256);
+impl vstd::std_specs::ops::SubSpecImpl<U256> for U256 {
+    open spec fn obeys_sub_spec() -> bool { true }
+    open spec fn sub_req(self, rhs: U256) -> bool { u(self) >= u(rhs) }
+    open spec fn sub_spec(self, rhs: U256) -> U256 { choose_u((u(self) - u(rhs)) as nat) }
+}
+pub assume_specification[ <U256 as core::ops::Sub<U256>>::sub ](a: U256, b: U256) -> (r: U256);
+impl vstd::std_specs::ops::MulSpecImpl<U256> for U256 {
+    open spec fn obeys_mul_spec() -> bool { true }
+    open spec fn mul_req(self, rhs: U256) -> bool { u(self) * u(rhs) < M() }
+    open spec fn mul_spec(self, rhs: U256) -> U256 { choose_u(u(self) * u(rhs)) }
+}
+pub assume_specification[ <U256 as core::ops::Mul<U256>>::mul ](a: U256, b: U256) -> (r: U256);
+impl vstd::std_specs::ops::MulAssignSpecImpl<U256> for U256 {
+    open spec fn obeys_mul_assign_spec() -> bool { true }
+    open spec fn mul_assign_req(self, rhs: U256) -> bool { u(self) * u(rhs) < M() }
+    open spec fn mul_assign_spec(self, rhs: U256) -> U256 { choose_u(u(self) * u(rhs)) }
+}
+pub assume_specification[ <U256 as core::ops::MulAssign<U256>>::mul_assign ](a: &mut U256, b: U256);
+pub assume_specification[ U256::into_words ](a: U256) -> (r: (u128, u128))
+    ensures r.0 as nat == u(a) / H(), r.1 as nat == u(a) % H();     // (high, low)
+pub assume_specification[ U256::from_words ](hi: u128, lo: u128) -> (r: U256)
+    ensures u(r) == hi as nat * H() + lo as nat;
 pub assume_specification[ U256::new ](v: u128) -> (r: U256)
     ensures u(r) == v as nat;
 pub assume_specification[ U256::as_u8 ](a: U256) -> (r: u8)
